@@ -144,8 +144,10 @@ class BaseKey(t.Generic[NativePrivateKey, NativePublicKey], metaclass=ABCMeta):
             data.update(self.extra_parameters)  # type: ignore
         data["kty"] = self.key_type
         self.validate_dict_key(data)
-        self._dict_value = data
-        return data
+        # fill the existing dict in place, never rebind it: another thread may
+        # already hold it (e.g. "ensure_kid" storing the "kid" into it)
+        self._dict_value.update(data)
+        return self._dict_value
 
     @property
     def public_key(self) -> NativePublicKey:
